@@ -177,3 +177,21 @@ Definition tstep (s : tstate) (e : tevent) : tstate :=
   | TExit =>
       if 0 <? ts_waiting s then mkT (submit_exit (ts_thr s)) (ts_waiting s - 1) else s
   end.
+
+(** Throttle.Disable(bool) as one more event of the system (it only sets the
+    flag), and whether the next Submit entry would be admitted. *)
+Definition set_disabled (t : throttle) (d : bool) : throttle :=
+  mkThrottle (t_pending t) (t_pending_limit t) (t_attempts t) d.
+
+Inductive tevent2 := TEv (e : tevent) | TDisable (d : bool).
+
+Definition tstep2 (s : tstate) (e : tevent2) : tstate :=
+  match e with
+  | TEv e => tstep s e
+  | TDisable d => mkT (set_disabled (ts_thr s) d) (ts_waiting s)
+  end.
+
+Definition enter_admits (s : tstate) : bool := snd (submit_enter (ts_thr s)).
+
+Definition fresh_throttle (plimit : Z) (attempts : nat) (disabled : bool) : tstate :=
+  mkT (mkThrottle 0 plimit attempts disabled) 0.
